@@ -127,8 +127,11 @@ func (w *Worker) buildCex(s *State, label, neg, note string) *Cex {
 			}
 		}
 		for _, u := range s.UF {
-			if (u.Name == "strings.ToLower" || u.Name == "strings.ToUpper") && len(u.Args) == 1 {
+			if (u.Name == "strings.ToLower" || u.Name == "strings.ToUpper" || u.Name == "strings.TrimSpace") && len(u.Args) == 1 {
 				strShape = append(strShape, tEq(u.Res, u.Args[0]))
+			}
+			if u.Name == "regex.replace" && len(u.Args) == 3 {
+				strShape = append(strShape, tEq(u.Res, u.Args[1])) // nothing matched
 			}
 		}
 		cat := func(parts ...[]string) []string {
